@@ -24,8 +24,9 @@ def corpus_items(tier, seed, bool_only=False, uncompute_opts=(True, False)):
         repo = [p for p in repo if isb(p[1])]
         multi = [p for p in multi if isb(p[1])]
         prand = [p for p in prand if isb(p[1])]
-    core = small[:60] + ctl + unit[:: max(1, len(unit) // 60)][:60]
-    rest = small[60:] + rnd + multi + unit + repo + orand[::7] + prand
+    stale = [] if bool_only else corpus.u_stale(full=True)
+    core = small[:60] + ctl + unit[:: max(1, len(unit) // 60)][:60] + stale[::8]
+    rest = small[60:] + rnd + multi + unit + repo + orand[::7] + prand + stale
     specs = []
     seen = set()
 
